@@ -480,6 +480,54 @@ run_s7(void *arg)
 	vh_fini();
 }
 
+// ---- S7b: one-path device (raw SUB -> raw PUB) cancelled under traffic ------------
+static void
+run_s7b(void *arg)
+{
+	(void) arg;
+	vh_init(0);
+	memset(&S7, 0, sizeof(S7));
+	nng_socket xs, xp, pub, sub;
+	VH_OK(nng_sub0_open_raw(&xs));
+	VH_OK(nng_pub0_open_raw(&xp));
+	VH_OK(nng_pub0_open(&pub));
+	VH_OK(nng_sub0_open(&sub));
+	VH_OK(nng_sub0_socket_subscribe(sub, "", 0));
+	VH_OK(nng_listen(pub, "inproc://s7b-up", NULL, 0));
+	VH_OK(nng_dial(xs, "inproc://s7b-up", NULL, 0));
+	VH_OK(nng_listen(xp, "inproc://s7b-down", NULL, 0));
+	VH_OK(nng_dial(sub, "inproc://s7b-down", NULL, 0));
+	VH_OK(nng_aio_alloc(&S7.aio, op_cb, &S7));
+	vs_settle();
+	S7.timeout   = -1;
+	S7.submitted = 1;
+	S7.t_start   = vs_now();
+	nng_device_aio(S7.aio, xs, xp);
+	vs_settle();
+	pthread_t tc;
+	// traffic in flight: the single forwarding aio is between operations
+	// some of the time
+	(void) vh_send_nb(pub, "m1", 2);
+	(void) vh_send_nb(pub, "m2", 2);
+	vs_window(1);
+	pthread_create(&tc, NULL, s7_canceller, NULL);
+	nng_aio_wait(S7.aio);
+	pthread_join(tc, NULL);
+	vs_window(0);
+	vs_settle();
+	if (S7.ncb != 1)
+		vs_fail("C02:callback-count", "device aio: %d callbacks", S7.ncb);
+	static const int ok[] = { NNG_ECANCELED, NNG_ECLOSED };
+	allowed(&S7, "device", ok, 2);
+	vs_outcome("res=%d", S7.result);
+	nng_aio_free(S7.aio);
+	nng_socket_close(pub);
+	nng_socket_close(sub);
+	nng_socket_close(xs);
+	nng_socket_close(xp);
+	vh_fini();
+}
+
 // ---- S8: stream recv over a socketpair || cancel || peer write / close ---------
 static op S8;
 static void *
@@ -620,6 +668,7 @@ main(int argc, char **argv)
 	explore("S4-ctxrecv-reply", run_s4, (void *) 0, p, t, sw, tot);
 	explore("S4-ctxrecv-reply-cancel", run_s4, (void *) 1, p, t, sw, tot);
 	explore("S7-device-cancel", run_s7, NULL, 1, 1, 1, 1); // teardown has ~300 points: 1 deviation
+	explore("S7b-onepath-device-cancel", run_s7b, NULL, 1, 1, 1, 1); // teardown has ~300 points: 1 deviation
 	explore("S8-stream-write-cancel", run_s8, (void *) 0, p, t, sw, tot);
 	explore("S8-stream-close-cancel", run_s8, (void *) 1, p, t, sw, tot);
 	explore("S8-stream-idle-cancel", run_s8, (void *) 2, p, t, sw, tot);
